@@ -45,7 +45,7 @@ class Cfg:
     def __init__(self, naming="distinct", method_form=0.3, members=None, called_lambdas=True, odd_selectors=False,
                  containers=True, ifexp=True, keywords_in_called=True, first=True, lists=True, dict_attr=True,
                  comprehension=False, count_fn=True, first_on_seq=True, genexp=False,
-                 captures=False, helpers=False, record_ctor=False):
+                 captures=False, helpers=False, record_ctor=False, free_scalar=False):
         self.naming = naming
         self.method_form = method_form
         self.members = members or MEMBERS
@@ -64,6 +64,7 @@ class Cfg:
         self.captures = captures
         self.helpers = helpers
         self.record_ctor = record_ctor
+        self.free_scalar = free_scalar
 
 
 class Ctx:
@@ -436,8 +437,8 @@ def _called_lambda(cx: Ctx, env, ty, depth):
     e2 = env
     for i in range(n):
         nm = cx.fresh(e2)
-        if cx.cfg.naming != "distinct" and any(v == "k0" for v, _ in env) and cx.chance(2):
-            nm = "k0"  # a parameter named like the query's free scalar variable
+        if cx.cfg.free_scalar and i < n - 1 and cx.chance(3):
+            nm = "k0"  # an earlier parameter named like the query's free scalar variable (which only defaults may mention)
         while nm in names:
             nm = nm + "_"
         t = any_type(cx, env, 1)
@@ -450,7 +451,12 @@ def _called_lambda(cx: Ctx, env, ty, depth):
     if cx.cfg.keywords_in_called and tys[-1] in (I, F, B) and cx.chance(2):
         # the last parameter has a default value and the call omits it
         # the default is evaluated in the ENCLOSING scope: it may mention outer variables, also ones named like a parameter
-        params = names[:-1] + [f"{names[-1]}={gen(cx, env, tys[-1], 0)}"]
+        dflt = gen(cx, env, tys[-1], 0)
+        if cx.cfg.free_scalar and cx.chance(5):
+            # k0 is a free variable of the whole query that occurs only in default values
+            other = gen(cx, env, tys[-1], 0)
+            dflt = cx.pick([f"({dflt}, {other})[k0]", f"[{other}, {dflt}][k0 - 1]"] + (["k0", "(k0 + 1)"] if tys[-1] == I else []))
+        params = names[:-1] + [f"{names[-1]}={dflt}"]
         return f"(lambda {', '.join(params)}: {body})({', '.join(args[:-1])})"
     if cx.cfg.keywords_in_called and cx.chance(4):
         npos = cx.int_(0, n - 1)
